@@ -35,7 +35,7 @@ ASSUMPTIONS = [
     "the leaf_syntenies of the input embedded in an output are not compared (not among the fields the statement lists)",
 ]
 BUDGET = {"quick": 900, "thorough": 3000}
-COLORS = ["FF0000", "00AA00", "0000FF"]
+COLORS = ["FF0000", "c0ffee", "#0000ff"]     # upper case, lower-case letters, a leading hash sign
 
 
 def worker_init():
@@ -165,7 +165,10 @@ def roundtrip(x):
     try:
         d1 = x.to_dict()
         text = json.dumps(d1)
-        y = cls.from_dict(json.loads(text))
+        d_in = json.loads(text)
+        y = cls.from_dict(d_in)
+        if d_in != json.loads(text):
+            return ("caller_dict_modified", f"{cls.__name__}.from_dict changed the dictionary it was given")
         bad = compare(x, y, is_output, is_super)
         if bad:
             return ("roundtrip", f"{cls.__name__}: {bad}")
